@@ -284,6 +284,12 @@ pub fn hand(b: &mut Builder) {
     d4.default = Dflt::Expr(b.tok());
     let mut d5 = b.f("custom_missing");
     d5.missing_fn = Some(b.fid());
+    let mut d6 = b.f("default_and_custom_missing");
+    d6.default = Dflt::Expr(b.tok());
+    d6.missing_fn = Some(b.fid());
+    d6.map = Some(b.fid());
+    let mut d7 = b.f("raw_looking");
+    d7.rename = Some("r#type".to_string());
     let opt = FieldDef::plain("maybe", Desc::Option(bx(b.p())));
     let mut optd = FieldDef::plain("maybe_default", Desc::Option(bx(sc(Sc::U8))));
     optd.default = Dflt::Trait;
@@ -295,7 +301,7 @@ pub fn hand(b: &mut Builder) {
         None,
         Deny::No,
         Validate::No,
-        vec![d3, d1, req, d2, d4, d5, opt, optd, vecd],
+        vec![d3, d1, req, d2, d4, d5, opt, optd, vecd, d6, d7],
     );
     b.program("struct_defaults", s.clone());
     b.program("vec_struct_defaults", Desc::Vec(bx(s)));
@@ -641,7 +647,9 @@ fn gen_fields(b: &mut Builder, rng: &mut Rng, rename_all: Option<RenameAll>, nam
             // a skipped field never reads the payload: conv is meaningless there
             f.conv = Conv::No;
         }
-        if !f.has_default() && rng.chance(1, 6) {
+        // a custom missing-field function, now and then also on a field that has a default
+        // (the default wins: such a field is never missing)
+        if (!f.has_default() && rng.chance(1, 6)) || (f.has_default() && !f.skip && rng.chance(1, 8)) {
             f.missing_fn = Some(b.fid());
         }
         if !f.skip && rng.chance(1, 8) {
@@ -657,6 +665,7 @@ fn gen_fields(b: &mut Builder, rng: &mut Rng, rename_all: Option<RenameAll>, nam
                 2 => format!("{}_renamed", ident.to_lowercase()),
                 3 => rng.pick(&WORDS).to_string(),
                 _ if rng.chance(1, 6) => String::new(),
+                _ if rng.chance(1, 6) => format!("r#{}", ident.to_lowercase()),
                 _ => format!("r{}", rng.below(100)),
             });
         }
@@ -846,6 +855,10 @@ pub fn uniform(program_seed: u64, n: usize) -> Catalogue {
                         f.default = Dflt::Expr(b.tok());
                     }
                     4 => f.missing_fn = Some(b.fid()),
+                    5 if rng.chance(1, 2) => {
+                        f.default = Dflt::Trait;
+                        f.missing_fn = Some(b.fid());
+                    }
                     _ => {}
                 }
                 if !f.skip {
